@@ -122,7 +122,7 @@ def load_py(D, groups=None, species=None, **kw):
         kw.setdefault('use_internal_name', D.naming == 'own')
     # (else: synthesised names are the documented default -- the argument is left out in half of those loads)
     phylo_dir = kw.pop('phyloxml_dir', None)
-    if phylo_dir and D.T[0] != '':      # (a PhyloXML clade cannot carry an empty name; unlabelled roots go the Newick way)
+    if phylo_dir and D.T[0] != '' and not D.meta.get('no_phyloxml'):      # (a PhyloXML clade cannot carry an empty name; unlabelled roots go the Newick way)
         # the same tree supplied as a PhyloXML file (names in <taxonomy><scientific_name>)
         path = os.path.join(phylo_dir, 'tree.phyloxml')
         with open(path, 'w') as f:
